@@ -127,6 +127,7 @@ const (
 	OpMod    // feature mod M == C
 	OpInvIdx // (C02 profile only) index of the property call within the run == C
 	OpInvLT  // (C02 profile only) index of the property call within the run < C
+	OpInvGE  // (E3 double-save workload only) index of the property call within the run >= C
 	OpTrue
 )
 
@@ -155,6 +156,8 @@ func (c *Cond) String() string {
 		return fmt.Sprintf("call#==%d", c.C)
 	case OpInvLT:
 		return fmt.Sprintf("call#<%d", c.C)
+	case OpInvGE:
+		return fmt.Sprintf("call#>=%d", c.C)
 	}
 	return "true"
 }
